@@ -460,6 +460,12 @@ def _livepatch__class(oldclass, newclass, modname, cache, visit_stack):
         return newclass
     oldnames = set(olddict)
     newnames = set(newdict)
+    # The '__dict__' and '__weakref__' descriptors are tied to the memory
+    # layout of the class that owns them.  They can't be added or removed, and
+    # the descriptors of ``newclass`` don't work on instances of ``oldclass``.
+    for name in ("__dict__", "__weakref__"):
+        oldnames.discard(name)
+        newnames.discard(name)
     for name in oldnames - newnames:
         delattr(oldclass, name)
     for name in newnames - oldnames:
